@@ -88,17 +88,29 @@ def _solve(args):
     try:
         ctx = z3.Context()
         last = ("unknown", "")
+        tried_cvc5 = False
         plan = [(0, {}, 0.5), (0, EM, 0.5)] if expect_sat else PLAN
         if hint is not None and not expect_sat:
             # ordering hint from the committed ledger (the tier that discharged this obligation last time): try it first
             # ("2d" = tier 2 with the solver's default configuration)
-            if hint == "2d":
+            if hint == "q":
+                first = []
+            elif hint == "2d":
                 first = [p for p in plan if p[0] == 2 and not p[1]]
             else:
                 first = [p for p in plan if p[0] == hint]
             plan = first + [p for p in plan if p not in first]
-        if not expect_sat and hint is None:
-            plan = [("qf", {}, 0.02)] + list(plan)
+        if not expect_sat and isinstance(hint, str) and hint.startswith("c"):
+            # the ledger says cvc5 discharged this one last time (typically nonlinear integer arithmetic): ask it first
+            r = _cvc5(smts, int(hint[1:]), max(10, timeout_ms // 4000))
+            if r is not None:
+                return "unsat", time.time() - t0, r
+        if not expect_sat and hint == "q":
+            # the ledger says the quantifier-free hypotheses were enough last time: give that attempt most of the budget
+            plan = [("qf", {}, 0.4)] + list(plan)
+        elif not expect_sat and hint is None:
+            # without the needed hypotheses a quantifier-free query is normally `sat` at once; only hard arithmetic uses the budget
+            plan = [("qf", {}, 0.15)] + list(plan)
         for tier, cfg, share in plan:
             if smts[tier] is None:
                 continue
@@ -113,14 +125,44 @@ def _solve(args):
                     return "unsat", time.time() - t0, "[tier0/qf]"
                 return "unsat", time.time() - t0, "[tier%d%s]" % (tier, "" if cfg else "/default")
             if tier == "qf":
+                if r == z3.unknown:
+                    # quantifier-free but beyond z3 in the time given (nonlinear integer arithmetic): cvc5 on the same small text
+                    rr = _cvc5({"qf": smts["qf"]}, "qf", 5)
+                    if rr is not None:
+                        return "unsat", time.time() - t0, "[cvc5/tier0]"
                 continue
             if r == z3.sat and (tier == 2 or expect_sat):
                 # a model is meaningful only with the full definitions (or for reachability checks)
                 return "sat", time.time() - t0, "[tier%d]" % tier
             last = ("unknown", "%s at tier %s" % (s.reason_unknown() if r == z3.unknown else "sat without definitions", tier))
+            if tier == 0 and not expect_sat and not tried_cvc5:
+                # z3 without definitions gave up: before the heavier tiers, give cvc5 a short go at the same text - it is much
+                # stronger on nonlinear integer arithmetic (row / column arithmetic with symbolic widths)
+                tried_cvc5 = True
+                rr = _cvc5(smts, 0, max(5, timeout_ms // 8000))
+                if rr is not None:
+                    return "unsat", time.time() - t0, rr
+        if not expect_sat and not tried_cvc5 and not (isinstance(hint, str) and hint.startswith("c")):
+            # second back end: cvc5 on the same SMT-LIB text (tier 0, then tier 2); only `unsat` is taken from it
+            for tier in (0, 2):
+                r = _cvc5(smts, tier, max(10, timeout_ms // 6000))
+                if r is not None:
+                    return "unsat", time.time() - t0, r
         return last[0], time.time() - t0, last[1]
     except Exception as e:       # pragma: no cover
         return "error", time.time() - t0, repr(e)
+
+
+def _cvc5(smts, tier, timeout_s):
+    try:
+        txt = smts[tier]
+    except Exception:
+        return None
+    if txt is None or not os.path.exists("/usr/bin/cvc5"):
+        return None
+    if _ext_solve((txt, "cvc5", timeout_s)) == "unsat":
+        return "[cvc5/tier%s]" % tier
+    return None
 
 
 def discharge(obls, timeout_s=60, procs=None, retry=True):
@@ -148,7 +190,7 @@ def discharge(obls, timeout_s=60, procs=None, retry=True):
     total = 0.0
     for o, (res, secs, reason) in zip(jobs, results):
         o.seconds = secs
-        o.backend = "z3-%s" % z3.get_version_string()
+        o.backend = "cvc5-1.0.3" if "[cvc5/" in (reason or "") else "z3-%s" % z3.get_version_string()
         total += secs
         if res == "error":
             o.status = "error"
